@@ -13,6 +13,19 @@ class ObligationCheckResult:
     reason: str | None = None
 
 
+def _finite_number(x: Any) -> float | None:
+    """Read an int/float (or a numeric string) as a finite float; anything else -> None."""
+    if isinstance(x, (int, float, str)):
+        try:
+            v = float(x)
+        except (ValueError, OverflowError):
+            return None
+        if v != v or v in (float("inf"), float("-inf")):
+            return None
+        return v
+    return None
+
+
 class BasicObligationChecker(ObligationChecker):
     """Validate common obligations carried by a decision.
 
@@ -74,6 +87,8 @@ class BasicObligationChecker(ObligationChecker):
         ctx = getattr(context, "attrs", context) or {}
 
         for ob in obligations:
+            if ob is not None and not isinstance(ob, dict):
+                continue  # malformed entry: nothing to enforce
             # Only apply obligations for the current effect.
             on = (ob or {}).get("on") or "permit"
             if on not in ("permit", "deny") or on != current_effect:
@@ -81,6 +96,8 @@ class BasicObligationChecker(ObligationChecker):
 
             typ = (ob or {}).get("type")
             attrs = (ob or {}).get("attrs") or {}
+            if not isinstance(attrs, dict):
+                attrs = {}
 
             # --- MFA ---
             if typ == "require_mfa":
@@ -89,12 +106,10 @@ class BasicObligationChecker(ObligationChecker):
 
             # --- Step-up auth (numeric level) ---
             elif typ == "require_level":
-                try:
-                    min_level = int(attrs.get("min", 0))
-                except Exception:
-                    min_level = 0
-                cur_level = int(ctx.get("auth_level", 0) or 0)
-                if cur_level < min_level:
+                # invalid `min` defaults to 0; a missing/ill-typed level is unmet (fail-closed)
+                min_level = _finite_number(attrs.get("min", 0)) or 0.0
+                cur_level = _finite_number(ctx.get("auth_level"))
+                if cur_level is None or cur_level < min_level:
                     return False, "step_up"
 
             # --- Explicit HTTP auth challenge (PEP decides headers via WWW-Authenticate) ---
@@ -111,8 +126,14 @@ class BasicObligationChecker(ObligationChecker):
                     if not bool(ctx.get("consent")):
                         return False, "consent"
                 else:
-                    consent = ctx.get("consent") or {}
-                    if not bool(consent.get(key)):
+                    consent = ctx.get("consent")
+                    granted = False
+                    if isinstance(consent, dict):
+                        try:
+                            granted = bool(consent.get(key))
+                        except TypeError:  # unhashable key
+                            granted = False
+                    if not granted:
                         return False, "consent"
 
             # --- Terms of Service ---
@@ -127,12 +148,10 @@ class BasicObligationChecker(ObligationChecker):
 
             # --- Reauthentication freshness ---
             elif typ == "require_reauth":
-                try:
-                    max_age = int(attrs.get("max_age", 0))
-                except Exception:
-                    max_age = 0
-                reauth_age = int(ctx.get("reauth_age_seconds", 0) or 0)
-                if reauth_age > max_age:
+                # invalid `max_age` defaults to 0; a missing/ill-typed age is unmet (fail-closed)
+                max_age = _finite_number(attrs.get("max_age", 0)) or 0.0
+                reauth_age = _finite_number(ctx.get("reauth_age_seconds"))
+                if reauth_age is None or reauth_age > max_age:
                     return False, "reauth"
 
             # --- Age verification ---
